@@ -7,7 +7,35 @@
    inheritance), Model/Codec.v (values of the stanza core, enc / dec mirroring
    MarshalXML / UnmarshalXML).  Registered extensions and IQ payloads are opaque
    well-formed element trees dispatched through the registry (their own codecs are
-   checked by reflection in the harness, not proved). *)
+   checked by reflection in the harness, not proved).
+
+   DOMAIN of the round trip (wf_value; every restriction that is not "the characters of a
+   text are XML characters" or "the number fits its Go type" is listed here, each with a
+   recorded negative in section 4 showing that it cannot be dropped):
+   (a) NAMES.  Node.XMLName.Local and the names of Node.Attrs are of type xml.Name:
+       encoding/xml writes a name as it stands, so they must be names in the decoder's
+       sense (XmlLex.name_ok: encoding/xml's own tables, without the colon) and an
+       attribute must not be called xmlns.  Namespaces (Node.XMLName.Space) are XML characters.
+   (b) Err.Reason is the NAME of the condition element, not a text: the element structure
+       depends on it by design (blank keeps it).  The repaired Err.MarshalXML refuses a
+       Reason that is not an element name - xml.Marshal returns an error, nothing is
+       written - which is the hypothesis [marshals v = true] ("once serialized") of the
+       theorems that speak about bytes; before the repair a Reason such as a/><b was copied
+       into the markup (demonstrated by ./check C01 on the unrepaired tree).  A condition
+       cannot be called text (read back as the <text/> child).
+   (c) NAMESPACE-EXPLICIT generic trees: a Node without namespace below a Node with one is
+       written without xmlns and therefore read back in the parent's namespace (default
+       namespace inheritance; it is also what somebody building such a Node by hand means).
+   (d) an IQ whose Error pointer is non-nil must not point to the all-empty Err (wf_iq):
+       Err.MarshalXML writes nothing for it (it cannot tell a pointer from a value), so
+       IQ{Error:&Err{}} is written as <iq></iq> and read back with Error == nil; for
+       Message/Presence the field is a value and the all-empty Err round-trips as itself.
+   (e) attributes of generic nodes are unqualified (the tree language has no prefixes;
+       qualified ones: harness oracle only).
+   XMLName of Message / Presence / IQ / Err is not part of a value: its tag names the
+   element, encoding/xml then ignores the field's content (a stanza parsed from a stream
+   has Space jabber:client there and is still written as <message>; observed by the
+   harness on values that carry such an XMLName). *)
 From Coq Require Import List ZArith NArith Bool.
 From XV Require Import Lib.Sx Gen.Generated Model.XmlText Model.XmlPrint Model.XmlLex Model.Codec
   Proofs.XmlTextP Proofs.XmlLexP Proofs.CodecP.
@@ -55,59 +83,63 @@ Proof. exact parse_print. Qed.
 Theorem C01_node_roundtrip : forall n : node, dec_node (enc_node n) = Some n.
 Proof. exact dec_enc_node. Qed.
 
-(* value level, for every registry that leaves the un-namespaced core children alone.
-   wf_value is the domain; the one restriction that is not about characters, names or
-   number ranges: an IQ whose Error pointer is non-nil must not point to the all-empty
-   Err (wf_iq).  Err.MarshalXML writes nothing for an all-empty Err (it cannot tell a
-   pointer from a value), so IQ{Error:&Err{}} is written as <iq></iq> and read back
-   with Error == nil; for Message/Presence the field is a value and the all-empty Err
-   round-trips as itself. *)
+(* value level (element trees), for every registry that leaves the un-namespaced core
+   children alone *)
 Theorem C01_roundtrip_core : forall (reg : registry) (v : value),
   reg_ok reg = true -> wf_value reg v = true ->
   dec reg (vtype_of v) (enc v) = Some v.
 Proof. exact dec_enc. Qed.
 
-(* through the bytes: what is written parses, and decodes to the value *)
+(* through the bytes: what is written parses, decodes to the value, and writing the decoded
+   value again gives the same bytes *)
 Theorem C01_roundtrip_wire : forall (reg : registry) (v : value),
-  reg_ok reg = true -> wf_value reg v = true ->
-  exists t, parse (print (enc v)) = Some t /\ dec reg (vtype_of v) t = Some v.
-Proof.
-  intros reg v Hr Hw. exists (enc v).
-  split; [apply parse_print, (wf_enc reg v Hw)|apply (dec_enc reg v Hr Hw)].
-Qed.
-
-(* writing the decoded value again gives the same bytes *)
-Theorem C01_reprint : forall (reg : registry) (v v' : value) (t : xtree),
-  reg_ok reg = true -> wf_value reg v = true ->
-  parse (print (enc v)) = Some t -> dec reg (vtype_of v) t = Some v' ->
-  print (enc v') = print (enc v).
-Proof.
-  intros reg v v' t Hr Hw Hp Hd.
-  rewrite (parse_print _ (wf_enc reg v Hw)) in Hp. injection Hp as <-.
-  rewrite (dec_enc reg v Hr Hw) in Hd. now injection Hd as <-.
-Qed.
+  reg_ok reg = true -> wf_value reg v = true -> marshals v = true ->
+  exists t v', parse (print (enc v)) = Some t /\ dec reg (vtype_of v) t = Some v'
+               /\ v' = v /\ print (enc v') = print (enc v).
+Proof. exact roundtrip_wire. Qed.
 
 (* the element structure (names, nesting, attribute names) read back from the bytes
    of v is that of any v' that differs from v only in the contents of text
    positions (blank: every text replaced by a fixed text of the same emptiness) *)
 Theorem C01_skeleton : forall (reg : registry) (v v' : value),
-  wf_value reg v = true -> blank v = blank v' ->
+  wf_value reg v = true -> marshals v = true -> blank v = blank v' ->
   option_map skeleton (parse (print (enc v))) = Some (skeleton (enc v')).
 Proof. exact skeleton_text_independent. Qed.
 
-(* generated obligation: the live registry (Gen/Generated.v, regenerated from the
-   code on every run) satisfies the side condition *)
+(* ... whatever characters the texts contain: for code points outside the XML range the
+   encoder writes U+FFFD, i.e. the bytes of v are those of sanitize_value v, and only that
+   value is asked to be in the domain (so every text of v is unconstrained) *)
+Theorem C01_written_sanitized : forall v : value, print (enc (sanitize_value v)) = print (enc v).
+Proof. exact print_sanitize_value. Qed.
+
+Theorem C01_skeleton_any : forall (reg : registry) (v v' : value),
+  wf_value reg (sanitize_value v) = true -> marshals v = true -> blank v = blank v' ->
+  option_map skeleton (parse (print (enc v))) = Some (skeleton (enc v')).
+Proof. exact skeleton_text_independent_any. Qed.
+
+(* nor can a text decide whether xml.Marshal refuses the value *)
+Theorem C01_marshals_text_independent : forall v v' : value,
+  blank v = blank v' -> marshals v = marshals v'.
+Proof. exact marshals_blank_eq. Qed.
+
+(* generated obligations: the live registry (Gen/Generated.v, regenerated from the
+   code on every run) satisfies the side condition; the white-space table of the number
+   conversions is the running Go's unicode.IsSpace *)
 Theorem C01_registry_ok : reg_ok Generated.registry = true.
 Proof. vm_compute. reflexivity. Qed.
 
-Theorem C01_roundtrip_live_registry : forall v : value,
-  wf_value Generated.registry v = true ->
-  exists t, parse (print (enc v)) = Some t /\ dec Generated.registry (vtype_of v) t = Some v.
-Proof. intros v Hw. exact (C01_roundtrip_wire Generated.registry v C01_registry_ok Hw). Qed.
+Theorem C01_space_table : space_tab = Generated.unicode_space.
+Proof. vm_compute. reflexivity. Qed.
 
-(* <failed/> with any count h and any of the 27 conditions round-trips (h is read back
-   since /repo d770553, the condition reset since the f6 repair; before d770553 this was
-   the recorded finding C01_smfailed_h_refuted) *)
+Theorem C01_roundtrip_live_registry : forall v : value,
+  wf_value Generated.registry v = true -> marshals v = true ->
+  exists t v', parse (print (enc v)) = Some t /\ dec Generated.registry (vtype_of v) t = Some v'
+               /\ v' = v /\ print (enc v') = print (enc v).
+Proof. intros v Hw Hm. exact (C01_roundtrip_wire Generated.registry v C01_registry_ok Hw Hm). Qed.
+
+(* <failed/> with any count h and any of the 27 conditions round-trips whatever the
+   registry (h is read back since /repo d770553, the condition reset since the f6 repair;
+   before d770553 this was the recorded finding C01_smfailed_h_refuted) *)
 Theorem C01_smfailed_roundtrip : forall (reg : registry) (h : option N) (c : str),
   opt_fits64 h = true -> (isempty c || existsb (str_eqb c) failed_conditions) = true ->
   dec reg TSMFailed (enc (VSMFailed h c)) = Some (VSMFailed h c).
@@ -117,11 +149,63 @@ Proof.
   pose proof (dec_enc [] (VSMFailed h c) eq_refl Hw) as H. exact H.
 Qed.
 
+(* ---------- 4. recorded negatives: the domain restrictions (a)-(d) cannot be dropped ---------- *)
+
+(* (a) a generic node whose name is not a name is written as it stands: the bytes are not a
+   document ("a b": attribute name without =; "a+b", "1a": not names for the decoder) *)
+Definition C01_bad_names : list str := [[97;32;98]; [97;43;98]; [49;97]; [45;120]; [97;47;62;60;98]].
+Theorem C01_node_names_unchecked :
+  forallb (fun l => match parse (print (enc (VNode (Node [] l [] [] [])))) with
+                    | None => true | Some _ => false end) C01_bad_names = true
+  /\ parse (print (enc (VNode (Node [] [113] [([97;32;98], [118])] [] [])))) = None.
+Proof. vm_compute. split; reflexivity. Qed.
+
+(* (b) the same Reason in an Err: the repaired encoder refuses; the unrepaired one wrote
+   bytes that are not a document *)
+Theorem C01_reason_refused :
+  forallb (fun r => negb (marshals (VMessage (mkMessage (mkAttrs [] [] [] [] []) [] [] []
+                                                (mkErr 0 [] r []) [])))) C01_bad_names = true
+  /\ forallb (fun r => match parse (print (enc (VMessage (mkMessage (mkAttrs [] [] [] [] []) [] [] []
+                                                          (mkErr 0 [] r []) [])))) with
+                       | None => true | Some _ => false end) C01_bad_names = true.
+Proof. vm_compute. split; reflexivity. Qed.
+
+(* (b) a condition called text comes back as an empty text *)
+Theorem C01_reason_text_refuted :
+  let v := VMessage (mkMessage (mkAttrs [] [] [] [] []) [] [] [] (mkErr 0 [] s_text []) []) in
+  marshals v = true /\
+  exists t v', parse (print (enc v)) = Some t /\ dec [] TMessage t = Some v' /\ v' <> v.
+Proof.
+  cbv zeta. split; [vm_compute; reflexivity|].
+  eexists. eexists. split; [vm_compute; reflexivity|]. split; [vm_compute; reflexivity|]. discriminate.
+Qed.
+
+(* (c) <q xmlns="urn:x"><c></c></q>: the child is read back in urn:x *)
+Theorem C01_unqualified_child_refuted :
+  let v := VNode (Node [117;114;110;58;120] [113] [] [] [Node [] [99] [] [] []]) in
+  exists t v', parse (print (enc v)) = Some t /\ dec [] TNode t = Some v' /\ v' <> v.
+Proof.
+  cbv zeta. eexists. eexists. split; [vm_compute; reflexivity|]. split; [vm_compute; reflexivity|]. discriminate.
+Qed.
+
+(* (d) IQ{Error: &Err{}} is written as <iq></iq> and read back with a nil Error *)
+Theorem C01_empty_iq_error_refuted :
+  let v := VIQ (mkIQ (mkAttrs [] [] [] [] []) None (Some zero_err) None) in
+  marshals v = true /\
+  exists t v', parse (print (enc v)) = Some t /\ dec [] TIQ t = Some v' /\ v' <> v.
+Proof.
+  cbv zeta. split; [reflexivity|].
+  eexists. eexists. split; [vm_compute; reflexivity|]. split; [vm_compute; reflexivity|]. discriminate.
+Qed.
+
 (* ---------- non-vacuity ---------- *)
 Definition C01_example_message : value :=
   VMessage (mkMessage (mkAttrs [99;104;97;116] [105;100;60;49;62] [] [97;64;98;47;99] [101;110]) [] [97;60;98;38;34;99;39;10;93;93;62;32;9] [116] (mkErr 0 [99;97;110;99;101;108] [105;116;101;109;45;110;111;116;45;102;111;117;110;100] [110;111;116;10;104;101;114;101]) [XE [117;114;110;58;120;109;112;112;58;104;105;110;116;115] [110;111;45;99;111;112;121] [] []; XE [117;114;110;58;120;109;112;112;58;114;101;99;101;105;112;116;115] [114;101;99;101;105;118;101;100] [([105;100], [120;38;121])] []]).
 Definition C01_example_iq : value :=
   VIQ (mkIQ (mkAttrs [103;101;116] [49] [] [] [101;110]) None (Some (mkErr 404 [] [] [60;103;111;110;101;47;62])) (Some (Node [117;114;110;58;120;58;49] [113] [([97], [118;34;60])] [32;120;10;121;32] [Node [117;114;110;58;120;58;49] [99] [] [] []; Node [117;114;110;58;120;58;50] [100] [] [38] []]))).
+
+Definition C01_example_illegal : value :=
+  VMessage (mkMessage (mkAttrs [0; 60] [11] [] [] []) [] [110;117;108;0;32;65534;60;47;98;62] [] (mkErr 7 [1] [103;111;110;101] [65535]) []).
 
 Example C01_examples_wf :
   wf_value Generated.registry C01_example_message = true
@@ -130,7 +214,16 @@ Example C01_examples_wf :
   /\ wf_value Generated.registry (VSMFailed (Some 7) [114;101;115;101;116]) = true
   /\ wf_doc (enc C01_example_message) = true
   /\ wf_toks (toks (enc C01_example_iq)) = true
-  /\ all_legal [60; 62; 38; 34; 39; 93; 93; 62; 9; 10; 13; 233; 28450; 128512] = true.
+  /\ all_legal [60; 62; 38; 34; 39; 93; 93; 62; 9; 10; 13; 233; 28450; 128512] = true
+  /\ marshals C01_example_message = true /\ marshals C01_example_iq = true
+  (* a value with characters outside the XML range in its texts is in the domain of C01_skeleton_any *)
+  /\ wf_value Generated.registry C01_example_illegal = false
+  /\ wf_value Generated.registry (sanitize_value C01_example_illegal) = true
+  /\ marshals C01_example_illegal = true
+  (* names at the edges of the decoder's grammar: e-acute, a-middle-dot-b, a.b-c_d, _a are names;
+     1a, -x, .x, a+b, a:b, a-multiplication-sign, the middle dot alone are not *)
+  /\ forallb name_ok [[233]; [97;183;98]; [97;46;98;45;99;95;100]; [95;97]; [19968]; [55203]] = true
+  /\ existsb name_ok [[49;97]; [45;120]; [46;120]; [97;43;98]; [97;58;98]; [97;215]; [183]; [55204]; []] = false.
 Proof. vm_compute. repeat split. Qed.
 
 Print Assumptions C01_escape_inert.
@@ -141,8 +234,16 @@ Print Assumptions C01_parse_print.
 Print Assumptions C01_node_roundtrip.
 Print Assumptions C01_roundtrip_core.
 Print Assumptions C01_roundtrip_wire.
-Print Assumptions C01_reprint.
 Print Assumptions C01_skeleton.
+Print Assumptions C01_written_sanitized.
+Print Assumptions C01_skeleton_any.
+Print Assumptions C01_marshals_text_independent.
 Print Assumptions C01_registry_ok.
+Print Assumptions C01_space_table.
 Print Assumptions C01_roundtrip_live_registry.
 Print Assumptions C01_smfailed_roundtrip.
+Print Assumptions C01_node_names_unchecked.
+Print Assumptions C01_reason_refused.
+Print Assumptions C01_reason_text_refuted.
+Print Assumptions C01_unqualified_child_refuted.
+Print Assumptions C01_empty_iq_error_refuted.
